@@ -574,3 +574,58 @@ func genRound4(c *drv.Ctx, emit func(Case)) {
 		}
 	}
 }
+
+// genOmissions: the caller supplies a SUBSET of an operation's optional parameters (none of them, all but one, only the query
+// ones, only the body-side ones): what it supplies arrives, and the call completes.
+func genOmissions(c *drv.Ctx, emit func(Case)) {
+	for _, api := range []API{apiItems("/api", false), apiFiles("/api"), apiRoot("/"), apiItems("/api/v1", true)} {
+		for _, op := range api.Ops {
+			bodySide := func(p Param) bool {
+				return p.Loc == "urlform" || p.Loc == "multiform" || p.Loc == "form" || p.Loc == "file" || p.Loc == "body"
+			}
+			var optional []int
+			for i, p := range op.Params {
+				if p.Loc != "path" && !p.Req {
+					optional = append(optional, i)
+				}
+			}
+			if len(optional) == 0 {
+				continue
+			}
+			var subsets []map[int]bool // the omitted ones
+			all, bodyOnly, otherOnly := map[int]bool{}, map[int]bool{}, map[int]bool{}
+			for _, i := range optional {
+				all[i] = true
+				if bodySide(op.Params[i]) {
+					bodyOnly[i] = true
+				} else {
+					otherOnly[i] = true
+				}
+				subsets = append(subsets, map[int]bool{i: true})
+				but := map[int]bool{}
+				for _, j := range optional {
+					if j != i {
+						but[j] = true
+					}
+				}
+				subsets = append(subsets, but)
+			}
+			subsets = append(subsets, all, bodyOnly, otherOnly)
+			for _, media := range op.medias() {
+				var steps []Step
+				for _, om := range subsets {
+					if len(om) == 0 {
+						continue
+					}
+					st := mkStep(op, nil, "none", okResp, media)
+					for i := range st.Args {
+						st.Args[i].Omit = om[i]
+					}
+					emit(Case{API: api, Shared: true, Steps: []Step{st}})
+					steps = append(steps, st)
+				}
+				emit(Case{API: api, Steps: steps})
+			}
+		}
+	}
+}
